@@ -3,7 +3,7 @@ SPEC = {
     "lean_props": ["TunnoxModel.Props.C11"],
     "harness": {
         "pkg": "c11",
-        "shims": {"session": "internal/protocol/session"},
+        "shims": {"session": "internal/protocol/session", "command": "internal/command"},
         "runs": [{"args": [], "corpus": ""}],
     },
     "skip_model_prefix": ["x "],
@@ -31,7 +31,9 @@ SPEC = {
              "identity-like JSON key any struct of the server can decode (regenerated from the struct tags, Gen.c11.identityKeys; "
              "the driver rejects a stale key list) to the body with a foreign client id; `dig` = digest of every payload pushed to "
              "any connection and of every stored record created/changed (all fields; random ids, secrets and times removed), "
-             "required equal between the two runs; read faults: cases marked `q <plan>` run over a fault-injecting wrapper of the real "
+             "required equal between the two runs; schedules: cases marked `z <j>` hold the handler (gated storage double) until the "
+             "executor's RPC wait — shortened through RPCManager.SetTimeout — has timed out and a second command from connection j is "
+             "in flight, then let it resume; read faults: cases marked `q <plan>` run over a fault-injecting wrapper of the real "
              "in-memory storage in which the i-th read of the named mapping's main record during the command fails transiently iff "
              "bit i of the plan is set — every plan over the first 3 (thorough: 5) reads x identity x whose mapping, compared with "
              "the model for MappingGet/MappingDelete/TrafficReport/SOCKS5 (single node) and judged by the predicate only (`x`) for "
